@@ -374,7 +374,7 @@ def examine(ctx, cases, results, model_out, scratch, count=True):
             ctx.bump("priority_list_len", len(case["prio"]))
             for p in case["prio"]:
                 ctx.bump("priority", PRIO_NAMES[p])
-            ctx.bump("top_bottom_not_last(K9 class)", k9)
+            ctx.bump("top_bottom_followed_by_another_priority", k9)
             ctx.bump("isolated_roots", len(case["iso"]))
             ctx.bump("match_links", case["mlinks"])
             ctx.bump("no_check_size", case["nosize"])
@@ -510,12 +510,6 @@ def report(ctx, fails, model_bin, scratch, dev2):
     for f in oracle_fails:
         kind, rec, text = f
         case = rec["case"]
-        if kind == "rank_mismatch" and tb_not_last(case["prio"]) and case["id"] not in corr_ids:
-            # the implementation agrees with the faithful model (which has K9) and deviates from the
-            # lexicographic reading only because top/bottom is not the last priority
-            sig = {"kind": "priority_top_not_last"}
-            ctx.violation(sig, "priority list %s: %s" % ([PRIO_NAMES[p] for p in case["prio"]], text), rec, found_input=True)
-            continue
         if kind in seen_kinds:
             ctx.violation({"kind": kind}, text, rec, found_input=True)
             continue
@@ -539,7 +533,7 @@ def report(ctx, fails, model_bin, scratch, dev2):
                 res, mo = run_cases(ctx, nb, model_bin, scratch, dev2)
                 fl = examine(ctx, nb, res, mo, scratch, count=False)
                 for x in fl:
-                    if x[0] != "corr" and not (x[0] == "rank_mismatch" and tb_not_last(x[1]["case"]["prio"])):
+                    if x[0] != "corr":
                         found = x
                         break
                 if found:
@@ -596,9 +590,7 @@ def gen_cli(rng):
     mode = rng.below(5)             # 0: default rf-over, 1/2: --rf-over k, 3: --unique, 4: --rf-under
     prio = [rng.choice([4, 5, 10, 11, 1, 0])] if rng.chance(1, 2) else []
     if prio and rng.chance(1, 2):
-        prio.append(rng.choice([4, 5, 10, 11]))
-        if tb_not_last(prio):
-            prio = prio[1:]
+        prio.append(rng.choice([4, 5, 10, 11]))      # also top/bottom FOLLOWED by another priority (K9 repaired by 7054be1)
     return {"roots": roots, "files": files, "isolate": isolate, "hlinks": rng.chance(1, 2), "transform": rng.chance(1, 4),
             "mode": mode, "prio": prio,
             "cli_n": rng.choice([None, None, 1, 2, 3]),       # -n on the dedupe command line (both runs)
@@ -823,7 +815,7 @@ def run(ctx):
         for i in range(ncases):
             sd = os.path.join(scratch, "s%d" % (i // size))
             cases.append(gen_case(ctx.rng, i, dev2 is not None, sd, small=(i % 5 == 0), large=(i % 40 == 7)))
-        # directed K9 case (DESIGN App. C): a, b, c created in the order c, b, a; --priority top --priority newest
+        # regression case of the repaired K9 (DESIGN App. C): a, b, c created in the order c, b, a; --priority top --priority newest
         cases.append({"id": ncases, "glen": 4, "op": "rm", "movedir": "mvdst", "n": None, "mlinks": False, "nosize": False,
                       "mbefore": None, "prio": [0, 2], "iso": [], "kn": [], "kp": [], "dn": [], "dp": [],
                       "inodes": [dict(kind="file", len=4, mtime=-1000, atime=-500, gap_ms=20, gap2_ms=0) for _ in range(3)],
